@@ -631,6 +631,94 @@ def crosskind_replay(ctx, key):
 
 
 # ---------------------------------------------------------------------------
+# sub-check: valuetexts (exhaustive) - every value text of the pool as the
+# content of a VALUE / KEYVALUE / RETURNVALUE / PARAMVALUE of every CIM type
+
+_VT_TYPES = ['boolean', 'string', 'char16', 'datetime', 'uint8', 'sint8',
+             'uint16', 'sint16', 'uint32', 'sint32', 'uint64', 'sint64',
+             'real32', 'real64']
+_VT_PLACES = ['property', 'property-array', 'keyvalue-typed',
+              'keyvalue-untyped', 'returnvalue', 'paramvalue', 'qualifier']
+
+
+def _vt_case(place, type_, text):
+    from xml.sax.saxutils import escape
+    t = escape(text)
+    if place in ('returnvalue', 'paramvalue'):
+        call = {'op': 'InvokeMethod', 'args': {
+            'MethodName': 'M', 'ObjectName': 'CIM_Foo', 'Params': [],
+            'kwparams': []}}
+        inner = ('<RETURNVALUE PARAMTYPE="%s"><VALUE>%s</VALUE></RETURNVALUE>'
+                 % (type_, t)) if place == 'returnvalue' else (
+                     '<PARAMVALUE NAME="o" PARAMTYPE="%s"><VALUE>%s</VALUE>'
+                     '</PARAMVALUE>' % (type_, t))
+        rsp = '<METHODRESPONSE NAME="M">%s</METHODRESPONSE>' % inner
+    elif place.startswith('keyvalue'):
+        call = {'op': 'EnumerateInstanceNames',
+                'args': {'ClassName': 'CIM_Foo'}}
+        vt = 'boolean' if type_ == 'boolean' else \
+            'string' if type_ in ('string', 'char16', 'datetime') else \
+            'numeric'
+        ta = ' TYPE="%s"' % type_ if place == 'keyvalue-typed' else ''
+        rsp = ('<IMETHODRESPONSE NAME="EnumerateInstanceNames"><IRETURNVALUE>'
+               '<INSTANCENAME CLASSNAME="CIM_Foo"><KEYBINDING NAME="k">'
+               '<KEYVALUE VALUETYPE="%s"%s>%s</KEYVALUE></KEYBINDING>'
+               '</INSTANCENAME></IRETURNVALUE></IMETHODRESPONSE>' %
+               (vt, ta, t))
+    else:
+        call = {'op': 'GetInstance', 'args': {'InstanceName': {
+            'k': 'ipath', 'classname': 'CIM_Foo',
+            'keys': [('k', 'uint8', 1)], 'namespace': None, 'host': None}}}
+        if place == 'property':
+            p = ('<PROPERTY NAME="p" TYPE="%s"><VALUE>%s</VALUE></PROPERTY>'
+                 % (type_, t))
+        elif place == 'property-array':
+            p = ('<PROPERTY.ARRAY NAME="p" TYPE="%s"><VALUE.ARRAY><VALUE>%s'
+                 '</VALUE><VALUE.NULL/><VALUE>%s</VALUE></VALUE.ARRAY>'
+                 '</PROPERTY.ARRAY>' % (type_, t, t))
+        else:
+            p = ('<PROPERTY NAME="p" TYPE="string"><QUALIFIER NAME="Q" '
+                 'TYPE="%s"><VALUE>%s</VALUE></QUALIFIER><VALUE>v</VALUE>'
+                 '</PROPERTY>' % (type_, t))
+        rsp = ('<IMETHODRESPONSE NAME="GetInstance"><IRETURNVALUE><INSTANCE '
+               'CLASSNAME="CIM_Foo">%s</INSTANCE></IRETURNVALUE>'
+               '</IMETHODRESPONSE>' % p)
+    body = ('<?xml version="1.0" encoding="utf-8" ?>\n<CIM CIMVERSION="2.0" '
+            'DTDVERSION="2.0"><MESSAGE ID="1001" PROTOCOLVERSION="1.0">'
+            '<SIMPLERSP>%s</SIMPLERSP></MESSAGE></CIM>' % rsp)
+    return {'call': call,
+            'conn': {'dns': None, 'pull': None, 'stats': False},
+            'responses': [{'mode': 'raw', 'status': (200, 'OK'),
+                           'headers': [],
+                           'raw': body.encode('utf-8', 'surrogatepass')}]}
+
+
+def _vt_texts():
+    return list(R.TEXT_VALUES) + [v for v in R.ATTR_VALUES
+                                  if v not in R.TEXT_VALUES]
+
+
+def valuetexts_enumerate(ctx, shard, nshards):
+    n = 0
+    texts = _vt_texts()
+    for place in _VT_PLACES:
+        for type_ in _VT_TYPES:
+            for ti in range(len(texts)):
+                n += 1
+                if n % nshards != shard:
+                    continue
+                valuetexts_replay(ctx, (place, type_, ti))
+
+
+def valuetexts_replay(ctx, key):
+    place, type_, ti = key
+    key = (place, type_, ti)
+    ctx.current = key
+    texts = _vt_texts()
+    oracle(ctx, _vt_case(place, type_, texts[ti % len(texts)]), key=key)
+
+
+# ---------------------------------------------------------------------------
 # sub-check: rawhttp - a scripted server on a real loopback socket, so that
 # the HTTP layer below pywbem (requests / urllib3 / http.client) parses real
 # bytes: status lines, header sections and body framings of every shape
@@ -858,9 +946,12 @@ SUBCHECKS = [
         thorough=(8, 0), budget=(0, 900)),
     Sub('crosskind', enumerate=crosskind_enumerate, quick=(8, 0),
         thorough=(8, 0)),
+    Sub('valuetexts', enumerate=valuetexts_enumerate, quick=(8, 0),
+        thorough=(8, 0)),
     Sub('rawhttp', strategy=rawhttp_strategy, oracle=rawhttp_oracle,
         quick=(8, 250), thorough=(16, 6000), case_timeout=60,
         timeout_is_violation=True),
 ]
 SUBCHECKS[1].replay = atheris_replay
 SUBCHECKS[2].replay = crosskind_replay
+SUBCHECKS[3].replay = valuetexts_replay
